@@ -17,15 +17,46 @@ import (
 	w "verif/harness/wire"
 )
 
+// pointsOf rebuilds the []*object.Point of a case: nil entries stay nil pointers, identical stored triples share ONE pointer (the same
+// object listed twice), and the empty list is a nil slice or an empty non-nil slice depending on the zoom's parity.
+func pointsOf(v w.Val, h int64) []*object.Point {
+	l := w.AsList(v)
+	if len(l) == 0 {
+		if h%2 == 0 {
+			return nil
+		}
+		return []*object.Point{}
+	}
+	out := make([]*object.Point, 0, len(l))
+	seen := map[[3]uint64]*object.Point{}
+	for _, e := range l {
+		if _, ok := e.(w.Nil); ok {
+			out = append(out, nil)
+			continue
+		}
+		t := w.AsList(e)
+		lon, lat, alt := w.AsFlt(t[0]), w.AsFlt(t[1]), w.AsFlt(t[2])
+		k := [3]uint64{math.Float64bits(lon), math.Float64bits(lat), math.Float64bits(alt)}
+		if q, ok := seen[k]; ok {
+			out = append(out, q)
+			continue
+		}
+		q := RawPoint(lon, lat, alt)
+		seen[k] = q
+		out = append(out, q)
+	}
+	return out
+}
+
 func fnPoints() *run.Fn {
 	return &run.Fn{Name: "GetExtendedSpatialIdsOnPoints", Invoke: func(a []w.Val) w.Val {
-		ids, err := shape.GetExtendedSpatialIdsOnPoints(PointsFromVal(a[0]), w.AsInt(a[1]), w.AsInt(a[2]))
+		ids, err := shape.GetExtendedSpatialIdsOnPoints(pointsOf(a[0], w.AsInt(a[1])), w.AsInt(a[1]), w.AsInt(a[2]))
 		return w.WithErr(w.Strs(ids), err)
 	}}
 }
 func fnPointsSid() *run.Fn {
 	return &run.Fn{Name: "GetSpatialIdsOnPoints", Invoke: func(a []w.Val) w.Val {
-		ids, err := shape.GetSpatialIdsOnPoints(PointsFromVal(a[0]), w.AsInt(a[1]))
+		ids, err := shape.GetSpatialIdsOnPoints(pointsOf(a[0], w.AsInt(a[1])), w.AsInt(a[1]))
 		return w.WithErr(w.Strs(ids), err)
 	}}
 }
@@ -53,28 +84,37 @@ func fnLatRow() *run.Fn {
 	}}
 }
 
-// PointMoveSequence: ONE *object.Point is converted, moved with SetLon/SetLat/SetAlt and converted again through the same pointer
-// (a result cached per pointer would return the old tile). Arguments: stored triple 1, requested triple 2, h, v, spatial-ID form?
-// Result: [ids of the first call, ids of the second call, the triple stored after the move (SetLat truncates: read back)].
+// PointMoveSequence: the SAME *object.Point objects are converted, moved with SetLon/SetLat/SetAlt and converted again through the same
+// pointers (a result cached per pointer would return the old tiles). Arguments: stored triples 1, requested triples 2 (same length),
+// h, v, spatial-ID form?  Result: [ids of the first call, ids of the second call, the triples stored after the move (SetLat truncates: read back)].
 func fnMove() *run.Fn {
 	return &run.Fn{Name: "PointMoveSequence", Invoke: func(a []w.Val) w.Val {
-		t1, t2 := w.AsList(a[0]), w.AsList(a[1])
+		l1, l2 := w.AsList(a[0]), w.AsList(a[1])
 		h, v, sid := w.AsInt(a[2]), w.AsInt(a[3]), w.AsBool(a[4])
-		p := RawPoint(w.AsFlt(t1[0]), w.AsFlt(t1[1]), w.AsFlt(t1[2]))
+		ps := make([]*object.Point, len(l1))
+		for i, e := range l1 {
+			t := w.AsList(e)
+			ps[i] = RawPoint(w.AsFlt(t[0]), w.AsFlt(t[1]), w.AsFlt(t[2]))
+		}
 		conv := func() ([]string, error) {
 			if sid {
-				return shape.GetSpatialIdsOnPoints([]*object.Point{p}, h)
+				return shape.GetSpatialIdsOnPoints(ps, h)
 			}
-			return shape.GetExtendedSpatialIdsOnPoints([]*object.Point{p}, h, v)
+			return shape.GetExtendedSpatialIdsOnPoints(ps, h, v)
 		}
 		ids1, e1 := conv()
-		e2 := p.SetLon(w.AsFlt(t2[0]))
-		e3 := p.SetLat(w.AsFlt(t2[1]))
-		p.SetAlt(w.AsFlt(t2[2]))
-		stored := PointVal(p)
+		errs := []error{e1}
+		stored := make(w.List, len(ps))
+		for i, p := range ps {
+			t := w.AsList(l2[i])
+			errs = append(errs, p.SetLon(w.AsFlt(t[0])), p.SetLat(w.AsFlt(t[1])))
+			p.SetAlt(w.AsFlt(t[2]))
+			stored[i] = PointVal(p)
+		}
 		ids2, e4 := conv()
+		errs = append(errs, e4)
 		res := w.L(w.Strs(ids1), w.Strs(ids2), stored)
-		for _, e := range []error{e1, e2, e3, e4} {
+		for _, e := range errs {
 			if e != nil {
 				return w.Err{V: res}
 			}
@@ -105,6 +145,9 @@ func lonFor(g *Gen, h int64) (float64, string) {
 	case 3: // just below a boundary: inside the last nanometres of a column (finding class x_rounding lives here)
 		n := int64(1) << uint(h)
 		k := g.Int63n(n) + 1
+		if g.Chance(0.4) { // just above the boundary, inside the band as well
+			return float64(k-1)*360/math.Pow(2, float64(h)) - 180 + g.R.Float64()*1e-13, "lon-near-boundary"
+		}
 		return float64(k)*360/math.Pow(2, float64(h)) - 180 - g.R.Float64()*1e-13, "lon-near-boundary"
 	}
 	return g.Lon(), "lon-any"
@@ -131,6 +174,11 @@ func altFor(g *Gen, v int64) (float64, string) {
 	case 3: // any layer boundary +- 0..2 ulps, both signs
 		k := g.VIndex(v)
 		return Ulp(float64(k)*cell, g.Intn(5)-2), "alt-boundary"
+	case 5:
+		if g.Chance(0.15) { // above the documented 2^25 m, inside the domain of the theorems and of the model (2^40)
+			return math.Copysign(33554432*math.Pow(2, g.R.Float64()*15), g.R.Float64()-0.5), "alt-above-documented"
+		}
+		return g.Alt(), "alt-any"
 	case 4: // below ground, not on a boundary
 		return -g.R.Float64() * math.Min(33554432, cell*float64(1+g.Intn(5))), "alt-below-ground"
 	}
@@ -159,25 +207,38 @@ func pointFor(g *Gen, h, v int64) (w.Val, []string) {
 
 func pointsFor(g *Gen, h, v int64) (w.List, []string) {
 	k := 1
-	if g.Chance(0.3) {
+	ltag := "npoints=1"
+	switch u := g.Intn(1000); {
+	case u < 300:
 		k = g.Intn(6)
+		ltag = Tag("npoints=%d", k)
+	case u < 340:
+		k = 6 + g.Intn(45)
+		ltag = "npoints=6..50"
+	case u < 343:
+		k = 51 + g.Intn(950)
+		ltag = "npoints=51..1000"
 	}
 	pts := make(w.List, k)
 	var tags []string
 	for j := range pts {
 		var t []string
+		if j > 0 && g.Chance(0.15) { // the same stored point again (listed twice: one pointer)
+			pts[j] = pts[g.Intn(j)]
+			continue
+		}
 		pts[j], t = pointFor(g, h, v)
 		if j == 0 {
 			tags = t
 		}
 	}
-	return pts, append(tags, Tag("npoints=%d", k))
+	return pts, append(tags, ltag)
 }
 
 func zoomTags(h, v int64) []string { return []string{Tag("hzoom=%d", h), Tag("vzoom=%d", v)} }
 
 func init() {
-	Scale["C01"] = 12000
+	Scale["C01"] = 10000
 	Registry["C01"] = func(r *run.Runner, g *Gen, n int) {
 		MathOracles(r)
 		r.Register(fnPoints(), fnPointsSid(), fnNewPoint(), fnLatRow(), fnMove())
@@ -195,7 +256,11 @@ func init() {
 			switch {
 			case kind < 25: // recorded finding class: denormal altitudes (kept out of the main stream)
 				lon, _ := lonFor(g, h)
-				_, pv, ok := StoredPoint(lon, g.Lat(), g.AltDenormal())
+				alt := g.AltDenormal()
+				if g.Chance(0.5) && v <= 35 { // the class boundary 2^(-997-v) itself, +- 0..2 ulps, both signs
+					alt = math.Copysign(Ulp(math.Ldexp(1, int(-997-v)), g.Intn(5)-2), g.R.Float64()-0.5)
+				}
+				_, pv, ok := StoredPoint(lon, g.Lat(), alt)
 				if !ok {
 					continue
 				}
@@ -213,9 +278,22 @@ func init() {
 					}
 				case 1:
 					sid(pts, g.Pick(-1, 36, 64, -35), false, append(tags, "bad-zoom")...)
+				case 2: // both zooms bad; a nil point AND a bad zoom; nothing but nil points
+					bad := g.Pick(-1, 36, 37, 100)
+					switch g.Intn(3) {
+					case 0:
+						ext(pts, bad, g.Pick(-1, 36, 64), false, append(tags, "bad-both-zooms")...)
+					case 1:
+						ext(append(append(w.List{}, pts...), w.Nil{}), bad, v, false, append(tags, "nil-point", "bad-hzoom")...)
+					default:
+						ext(w.List{w.Nil{}, w.Nil{}}, h, v, false, "nil-point", "all-nil")
+					}
 				default:
 					at := g.Intn(len(pts) + 1)
 					withNil := append(append(append(w.List{}, pts[:at]...), w.Nil{}), pts[at:]...)
+					if g.Chance(0.3) && len(withNil) > 1 { // more than one nil
+						withNil = append(withNil, w.Nil{})
+					}
 					if g.Chance(0.3) {
 						sid(withNil, h, false, append(tags, "nil-point")...)
 					} else {
@@ -246,7 +324,7 @@ func init() {
 				ext(pts, h, v, triv, tags...)
 				ext(pts, h, v, triv, tags...) // identical call again
 				h2, v2 := g.Zoom(), g.Zoom()
-				ext(pts, h2, v, triv, tags...) // only the horizontal zoom changed
+				ext(pts, h2, v, triv, tags...)  // only the horizontal zoom changed
 				ext(pts, h2, v2, triv, tags...) // then only the vertical zoom
 				sid(pts, h, triv, tags...)
 				sid(pts, v2, triv, tags...)
@@ -256,29 +334,41 @@ func init() {
 				if h > 35 || v > 35 {
 					continue
 				}
-				p1, tags := pointFor(g, h, v)
-				var lon2, lat2, alt2 float64
-				switch g.Intn(4) {
-				case 0: // moved only vertically / only horizontally
-					t := w.AsList(p1)
-					lon2, lat2, alt2 = w.AsFlt(t[0]), w.AsFlt(t[1]), g.Alt()
-				case 1:
-					t := w.AsList(p1)
-					lon2, lat2, alt2 = g.Lon(), g.Lat(), w.AsFlt(t[2])
-				default:
-					lon2, _ = lonFor(g, h)
-					lat2, _ = latFor(g)
-					alt2, _ = altFor(g, v)
-				}
-				if _, _, ok := StoredPoint(lon2, lat2, alt2); !ok {
-					continue
+				nmove := 1 + g.Intn(3)
+				var l1, l2 w.List
+				var tags []string
+				for j := 0; j < nmove; j++ {
+					p1, t := pointFor(g, h, v)
+					if j == 0 {
+						tags = t
+					}
+					var lon2, lat2, alt2 float64
+					for {
+						switch g.Intn(4) {
+						case 0: // moved only vertically / only horizontally
+							tt := w.AsList(p1)
+							lon2, lat2, alt2 = w.AsFlt(tt[0]), w.AsFlt(tt[1]), g.Alt()
+						case 1:
+							tt := w.AsList(p1)
+							lon2, lat2, alt2 = g.Lon(), g.Lat(), w.AsFlt(tt[2])
+						default:
+							lon2, _ = lonFor(g, h)
+							lat2, _ = latFor(g)
+							alt2, _ = altFor(g, v)
+						}
+						if _, _, ok := StoredPoint(lon2, lat2, alt2); ok {
+							break
+						}
+					}
+					l1 = append(l1, p1)
+					l2 = append(l2, w.L(w.F(lon2), w.F(lat2), w.F(alt2)))
 				}
 				sidForm := g.Chance(0.3)
 				if sidForm {
 					v = h
 				}
-				r.Run(run.Case{Prop: "C01", Fn: "PointMoveSequence", Tags: append(append(zoomTags(h, v), tags...), "move-sequence"),
-					Args: []w.Val{p1, w.L(w.F(lon2), w.F(lat2), w.F(alt2)), w.I(h), w.I(v), w.B(sidForm)}})
+				r.Run(run.Case{Prop: "C01", Fn: "PointMoveSequence", Tags: append(append(zoomTags(h, v), tags...), "move-sequence", Tag("nmove=%d", nmove)),
+					Args: []w.Val{l1, l2, w.I(h), w.I(v), w.B(sidForm)}})
 				i++
 			case kind < 280:
 				pts, tags := pointsFor(g, h, h)
